@@ -69,22 +69,57 @@ class Directed:
     def build(self, eng):
         """create the symbolic payload and assert the structure assumptions; returns SymBytes"""
         L = self.L
-        p = sym.symbytes(self.pname, L)
-        self.p = p
         self.nb = nb = 8 * L
+        num = int(self.ident[:4])
+        # bits fixed by the structure (identity, counters, flags, concrete masks) are written into the payload as constants, so that
+        # terms over them fold syntactically; every other bit is a solver variable
+        known = {}
+
+        def fix(off, w, v):
+            for i in range(w):
+                known[off + i] = (v >> (w - 1 - i)) & 1
+        if nb >= 12:
+            fix(0, 12, num)
+        if "_" in self.ident and nb >= 23:
+            fix(15, 8, int(self.ident[5:]))
+        for a in self.assume_list:
+            kind, name, off, w, v = a
+            if kind == 'eq' and off + w <= nb and w > 0:
+                fix(off, w, v)
+        elems = []
+        for bi in range(L):
+            var = z3.BitVec(f"{self.pname}{bi}", 8)
+            bits = [known.get(8 * bi + j) for j in range(8)]
+            if all(b is not None for b in bits):
+                elems.append(int("".join(str(b) for b in bits), 2))
+            elif all(b is None for b in bits):
+                elems.append(sym.SymInt(z3.ZeroExt(1, var)))
+            else:
+                parts = []
+                j = 0
+                while j < 8:
+                    k = j
+                    if bits[j] is None:
+                        while k < 8 and bits[k] is None:
+                            k += 1
+                        parts.append(z3.Extract(7 - j, 8 - k, var))
+                    else:
+                        while k < 8 and bits[k] is not None:
+                            k += 1
+                        parts.append(z3.BitVecVal(int("".join(str(b) for b in bits[j:k]), 2), k - j))
+                    j = k
+                t = z3.Concat(*parts) if len(parts) > 1 else parts[0]
+                elems.append(sym.SymInt(z3.ZeroExt(1, t)))
+        p = sym.SymBytes(elems)
+        self.p = p
         self.P = P = p.term()
         self.wit = {}
-        num = int(self.ident[:4])
-        if nb >= 12:
-            eng.assume(fterm(P, nb, 0, 12) == num)
-        if "_" in self.ident and nb >= 23:
-            eng.assume(fterm(P, nb, 15, 8) == int(self.ident[5:]))
         for a in self.assume_list:
             kind, name, off, w, v = a
             if off + w > nb or w == 0:
                 continue   # field lies (partly) outside a truncated payload
             if kind == 'eq':
-                eng.assume(fterm(P, nb, off, w) == v)
+                pass
             else:
                 A = [z3.BitVec(f"{self.pname}_{name}_pos{i}", 8) for i in range(v)]
                 for i, a_ in enumerate(A):
